@@ -14,7 +14,8 @@ edit of the file system between builds, builds of any target or node key, restar
 the tool is started again on the same database with description `ds g'`.
 
 Proved here:
-* `C08_client_SigCovers` / `C08_client_SelfStable` — the two client obligations of the generation theorems;
+* `C08_client_SigCoversValid` / `C08_client_SelfStable` — the two client obligations of the generation theorems
+  (`SigCoversValid`: equal signature ⇒ equal task, for every rule that can accept a stored value at all);
 * `C08_outputs_clean_gen`, `C08_outputs_eval_gen`, `C08_inputs_current_gen` — after any such history a successful
   build returns / hands to every task the clean value of the CURRENT description in the current file-system state
   (= what `cleanEval (ds g)` computes);
@@ -23,10 +24,11 @@ Proved here:
 
 Hypotheses (all explicit):
 * `hH` — the signature hash does not collide (as in `C08_node_sig_changes`);
-* `TargetsStable ds` — the target table is the same in every generation.  The BuildSystem gives a target rule NO
-  signature (it relies on `isResultValid = false`), so the engine obligation `SigCovers` ("equal signature ⇒ equal
-  requests") fails for an edited target although the stored result of a target is never reused
-  (`C08_SigCovers_needs_TargetsStable`); an edited target has to be read as a NEW target index.
+* NOTHING about targets: the BuildSystem gives a target rule no signature and relies on `isResultValid = false`; the
+  engine obligation `SigCoversValid` binds only rules that can accept a stored value, so the target table may be
+  edited freely (`TargetEditExample`).  The stronger obligation `SigCovers` (`C08_client_SigCovers`) does need
+  `TargetsStable ds` — it FAILS for an edited target, `C08_SigCovers_needs_TargetsStable` — which is why the weaker
+  obligation is the right one; both are kept as documentation.
 * `ProducerStable ds` — a command that stays THE producer of a VIRTUAL node keeps its tool class (phony / symlink /
   other).  Nothing is asked for non-virtual nodes: a successful command's value records its output list like the real
   BuildValue (`successValue`, `C08_value_records_outputs`), a produced node looks its record up in the value, so
@@ -98,13 +100,13 @@ theorem C08_command_sig_tracks_definition (d d' : Desc) (c : Nat)
     exact absurd h.symm (cmdTerm_ne_nil _ _)
   · exact ⟨⟨fun x => absurd x a, fun x => absurd x b⟩, by rw [hdef d a, hdef d' b]⟩
 
-/-- **C08_client_SigCovers.**  The rule sets of a sequence of descriptions meet the engine obligation "the signature
-covers the definition": two generations that give a rule the same (collision-free) signature give it the same
-requests and the same result function; every generation satisfies `Program.WF`. -/
-theorem C08_client_SigCovers (H : List Nat → Nat) (hH : ∀ a b, H a = H b → a = b) (ds : Nat → Desc)
-    (hT : TargetsStable ds) (hP : ProducerStable ds) : SigCovers (fun g => client H (ds g)) := by
-  refine ⟨fun g => C08_client_WF H (ds g), ?_⟩
-  intro g g' k env env' h
+/-- equal (collision-free) signatures ⇒ equal requests and result function, for node and command keys outright and
+for a target key when the two generations have the same target table -/
+theorem client_covers (H : List Nat → Nat) (hH : ∀ a b, H a = H b → a = b) (ds : Nat → Desc) (hP : ProducerStable ds)
+    (g g' : Nat) (k : Key) (env env' : Env) (hT2 : k % 3 = 2 → (ds g).targets = (ds g').targets)
+    (h : (client H (ds g)).sig env k = (client H (ds g')).sig env' k) :
+    (client H (ds g)).next k = (client H (ds g')).next k ∧ (client H (ds g)).disc k = (client H (ds g')).disc k ∧
+      ∀ e r, (client H (ds g)).out k e r = (client H (ds g')).out k e r := by
   have ht : sigTerm (ds g) k = sigTerm (ds g') k := hH _ _ h
   show (fun _ => nextOf (ds g) k) = (fun _ => nextOf (ds g') k) ∧ (fun _ => ([] : List Key)) = (fun _ => []) ∧
     ∀ e r, outOf (ds g) k e r = outOf (ds g') k e r
@@ -138,11 +140,41 @@ theorem C08_client_SigCovers (H : List Nat → Nat) (hH : ∀ a b, H a = H b →
       cases m2 with
       | zero =>
         have hm' : k % 3 = 2 := hm
-        obtain ⟨hn, ho⟩ := target_congr hm' (hT g g')
+        obtain ⟨hn, ho⟩ := target_congr hm' (hT2 hm')
         exact ⟨by rw [hn], rfl, ho⟩
       | succ m3 =>
         rw [hm] at hlt
         exact absurd hlt (Nat.not_lt.2 (Nat.le_add_left 3 m3))
+
+/-- **C08_client_SigCovers.**  The rule sets of a sequence of descriptions meet the STRONG engine obligation "the
+signature covers the definition" for every rule — two generations that give a rule the same (collision-free)
+signature give it the same requests and the same result function — provided the target table is not edited
+(`C08_SigCovers_needs_TargetsStable`: it fails otherwise, a target rule has no signature).  Kept as documentation;
+the theorems below use the weaker obligation `C08_client_SigCoversValid`. -/
+theorem C08_client_SigCovers (H : List Nat → Nat) (hH : ∀ a b, H a = H b → a = b) (ds : Nat → Desc)
+    (hT : TargetsStable ds) (hP : ProducerStable ds) : SigCovers (fun g => client H (ds g)) :=
+  ⟨fun g => C08_client_WF H (ds g), fun g g' k env env' h => client_covers H hH ds hP g g' k env env' (fun _ => hT g g') h⟩
+
+/-- a target key (existing target or not) never accepts a stored value: `TargetTask::isResultValid` is `false` -/
+theorem validOf_target (d : Desc) (env : Env) {k : Key} (hm : k % 3 = 2) (v : Val) : validOf d env k v = false := by
+  unfold validOf
+  rw [ruleOf_mod2_eq d hm]
+  unfold targetRule
+  cases decide (k / 3 < d.targets.length) <;> simp [targetValid]
+
+/-- **C08_client_SigCoversValid.**  The engine obligation of the generation theorems, WITHOUT any hypothesis on
+targets: every generation satisfies `Program.WF`, and two generations that give a rule THAT CAN ACCEPT A STORED VALUE
+the same (collision-free) signature give it the same requests and the same result function.  A target rule never
+accepts a stored value, so its node list may be edited under its constant (empty) signature. -/
+theorem C08_client_SigCoversValid (H : List Nat → Nat) (hH : ∀ a b, H a = H b → a = b) (ds : Nat → Desc)
+    (hP : ProducerStable ds) : SigCoversValid (fun g => client H (ds g)) := by
+  refine ⟨fun g => C08_client_WF H (ds g), ?_⟩
+  intro g g' k env env' hv h
+  refine client_covers H hH ds hP g g' k env env' (fun hm => ?_) h
+  obtain ⟨e, v, hval⟩ := hv
+  have : validOf (ds g') e k v = true := hval
+  rw [validOf_target (ds g') e hm v] at this
+  cases this
 
 /-- **C08_client_SelfStable.**  The input rules of the BuildSystem (file-input nodes) read the file system in the
 same way in every description: the stat record of the node's own path. -/
@@ -161,36 +193,36 @@ theorem C08_client_SelfStable (H : List Nat → Nat) (ds : Nat → Desc) : SelfS
 returns the value a clean build of the CURRENT description computes in the current file-system state — and that
 value is unique. -/
 theorem C08_outputs_clean_gen (H : List Nat → Nat) (hH : ∀ a b, H a = H b → a = b) (ds : Nat → Desc)
-    (hT : TargetsStable ds) (hP : ProducerStable ds) {gevs : List GEvent} {g0 : Nat} {s s' : St} {g : Nat} {v : Val}
+    (hP : ProducerStable ds) {gevs : List GEvent} {g0 : Nat} {s s' : St} {g : Nat} {v : Val}
     (hrun : runG (fun g => client H (ds g)) ({}, g0) gevs = some (s, g))
     (hret : step (client H (ds g)) s (.ret v) = some s') (hnd : s'.pendingDropped = false)
     (hok : s.cancelled = false ∧ s.cycleSeen = false ∧ s.errSeen = false) :
     ∃ root, s.target = some root ∧ Clean (client H (ds g)) s.env root v ∧
       ∀ w, Clean (client H (ds g)) s.env root w → w = v :=
-  C01_value_unique_gen (PP := fun g => client H (ds g)) (C08_client_SigCovers H hH ds hT hP).toWeak
+  C01_value_unique_gen (PP := fun g => client H (ds g)) (C08_client_SigCoversValid H hH ds hP)
     (C08_client_SelfStable H ds) (client_Det H (ds g)) hrun hret hnd hok
 
 /-- ... hence exactly what the executable clean evaluator of the CURRENT description computes from the current
 sources (the function the driver compares with the files the real tool leaves behind). -/
 theorem C08_outputs_eval_gen (H : List Nat → Nat) (hH : ∀ a b, H a = H b → a = b) (ds : Nat → Desc)
-    (hT : TargetsStable ds) (hP : ProducerStable ds) {gevs : List GEvent} {g0 : Nat} {s s' : St} {g : Nat} {v : Val}
+    (hP : ProducerStable ds) {gevs : List GEvent} {g0 : Nat} {s s' : St} {g : Nat} {v : Val}
     (hrun : runG (fun g => client H (ds g)) ({}, g0) gevs = some (s, g))
     (hret : step (client H (ds g)) s (.ret v) = some s') (hnd : s'.pendingDropped = false)
     (hok : s.cancelled = false ∧ s.cycleSeen = false ∧ s.errSeen = false) :
     ∃ root, s.target = some root ∧ ∀ f w, cleanEval (ds g) s.env f root = some w → v = w := by
-  obtain ⟨root, ht, hc, _⟩ := C08_outputs_clean_gen H hH ds hT hP hrun hret hnd hok
+  obtain ⟨root, ht, hc, _⟩ := C08_outputs_clean_gen H hH ds hP hrun hret hnd hok
   exact ⟨root, ht, fun f w he => C08_clean_is_eval H (ds g) s.env f root v w hc he⟩
 
 /-- **C08_inputs_current_gen.**  Every value handed to a task in any build of such a history (each node of the built
 target, each command input, each node's producer) is the clean value for the CURRENT description — never one left
 over from an earlier description or an earlier file-system state. -/
 theorem C08_inputs_current_gen (H : List Nat → Nat) (hH : ∀ a b, H a = H b → a = b) (ds : Nat → Desc)
-    (hT : TargetsStable ds) (hP : ProducerStable ds) {gevs : List GEvent} {g0 : Nat} {s s' : St} {g : Nat}
+    (hP : ProducerStable ds) {gevs : List GEvent} {g0 : Nat} {s s' : St} {g : Nat}
     {k : Key} {id : Nat} {key : Key} {v : Val} {reqs : List Req}
     (hrun : runG (fun g => client H (ds g)) ({}, g0) gevs = some (s, g)) (hnd : s.pendingDropped = false)
     (hprov : step (client H (ds g)) s (.provide k id key v reqs) = some s') :
     Clean (client H (ds g)) s.env key v ∧ ∀ f w, cleanEval (ds g) s.env f key = some w → v = w := by
-  have hc := C01_inputs_gen (PP := fun g => client H (ds g)) (C08_client_SigCovers H hH ds hT hP).toWeak
+  have hc := C01_inputs_gen (PP := fun g => client H (ds g)) (C08_client_SigCoversValid H hH ds hP)
     (C08_client_SelfStable H ds) hrun hnd hprov
   exact ⟨hc, fun f w he => C08_clean_is_eval H (ds g) s.env f key v w hc he⟩
 
@@ -201,14 +233,14 @@ current description — for a command: its definition changed, it was added or r
 (`C08_node_sig_tracks_producers`) — then the engine can neither declare the rule up to date nor ask it whether its
 stored value is valid; the only verdict is "needs to run" (never built / signature changed). -/
 theorem C08_changed_definition_reruns_gen (H : List Nat → Nat) (hH : ∀ a b, H a = H b → a = b) (ds : Nat → Desc)
-    (hT : TargetsStable ds) (hP : ProducerStable ds) {gevs : List GEvent} {g0 : Nat} {s : St} {g : Nat} {k : Key}
+    (hP : ProducerStable ds) {gevs : List GEvent} {g0 : Nat} {s : St} {g : Nat} {k : Key}
     (hrun : runG (fun g => client H (ds g)) ({}, g0) gevs = some (s, g)) (hnd : s.pendingDropped = false)
     (hreg : s.registered k = true) {g1 : Nat} (hrec : (s.mem.res k).sig = H (sigTerm (ds g1) k))
     (hchg : sigTerm (ds g1) k ≠ sigTerm (ds g) k) :
     step (client H (ds g)) s (.upToDate k) = none ∧ (∀ v b, step (client H (ds g)) s (.valid k v b) = none) ∧
     (∀ reason input s', step (client H (ds g)) s (.needs k reason input) = some s' →
       input = none ∧ (reason = 0 ∨ reason = 1) ∧ s'.status k = .needsRun) := by
-  have hi := (reachG_inv (PP := fun g => client H (ds g)) (C08_client_SigCovers H hH ds hT hP).toWeak
+  have hi := (reachG_inv (PP := fun g => client H (ds g)) (C08_client_SigCoversValid H hH ds hP)
     (C08_client_SelfStable H ds) hrun hnd).1
   obtain ⟨env', he'⟩ := hi.sigAtOk k hreg
   have he : H (sigTerm (ds g) k) = s.sigAt k := he'
@@ -537,13 +569,129 @@ theorem C08_gen_needs_ProducerStable : ∃ (s s' : St), (∀ a b, godel a = gode
 
 end NeedProducerStable
 
+/-! ### non-vacuity: the node list of a target is edited -/
+
+namespace TargetEditExample
+
+def c0 : Cmd := { tool := .shell, inputs := [0], outputs := [1], salt := 5 }
+def c1 : Cmd := { tool := .shell, inputs := [0], outputs := [2], salt := 9 }
+/-- generation 0: `C0: 0 -> 1`, `C1: 0 -> 2`, target 0 = [1] -/
+def d0 : Desc := { virt := [false, false, false], cmds := [c0, c1], targets := [[1]] }
+/-- generation ≥ 1: target 0 = [1, 2] -/
+def d1 : Desc := { virt := [false, false, false], cmds := [c0, c1], targets := [[1, 2]] }
+
+def ds (g : Nat) : Desc := if g = 0 then d0 else d1
+def PP (g : Nat) : Program := client godel (ds g)
+
+theorem ds_cases (g : Nat) : ds g = d0 ∨ ds g = d1 := by
+  unfold ds; by_cases h : g = 0 <;> simp [h]
+
+theorem ds_ProducerStable : ProducerStable ds := by
+  apply ProducerStable.of_no_virtual
+  intro g i
+  rcases ds_cases g with a | a <;> rw [a] <;> exact isVirtual_false_of_all (by decide) i
+
+/-- the target table IS edited -/
+theorem ds_not_TargetsStable : ¬ TargetsStable ds := fun h => absurd (h 0 1) (by decide)
+
+def v0 : Val := fileValue 11
+def vC0 : Val := successValue c0 (mix 5 10)
+def v1 : Val := vExisting (mix (mix 5 10) 0)
+def vC1 : Val := successValue c1 (mix 9 10)
+def v2 : Val := vExisting (mix (mix 9 10) 0)
+
+/-- generation 0: target 0 (key 2) is built: node 1 through `C0`; the file `C0` wrote appears; the description is edited -/
+def histA : List GEvent :=
+  ([.mutate 0 11,
+    .buildStart 2, .queueCreated, .dbIter 1, .lookup 2, .scanning 2, .needs 2 0 none, .create 2, .start 2 [⟨3, 0, 0⟩],
+    .lookup 3, .scanning 3, .needs 3 0 none, .create 3, .start 3 [⟨1, 0, 0⟩],
+    .lookup 1, .scanning 1, .needs 1 0 none, .create 1, .start 1 [⟨0, 0, 0⟩],
+    .lookup 0, .scanning 0, .needs 0 0 none, .create 0, .start 0 [], .inputsAvail 0 [], .complete 0 v0 false,
+    .finished 0 { value := v0, sig := godel (sigTerm d0 0), computedAt := 1, builtAt := 1, deps := [] },
+    .provide 1 0 0 v0 [], .inputsAvail 1 [], .complete 1 vC0 false,
+    .finished 1 { value := vC0, sig := godel (sigTerm d0 1), computedAt := 1, builtAt := 1, deps := [⟨0, false, false⟩] },
+    .provide 3 0 1 vC0 [], .inputsAvail 3 [], .complete 3 v1 false,
+    .finished 3 { value := v1, sig := godel (sigTerm d0 3), computedAt := 1, builtAt := 1, deps := [⟨1, false, false⟩] },
+    .provide 2 0 3 v1 [], .inputsAvail 2 [], .complete 2 vTarget false,
+    .finished 2 { value := vTarget, sig := godel (sigTerm d0 2), computedAt := 1, builtAt := 1, deps := [⟨3, false, false⟩] },
+    .ret vTarget, .dbEnd, .tail 0 0, .mutate 3 (mix (mix 5 10) 0 + 1)] : List Event).map .ev ++ [.reprogram 1]
+
+/-- generation 1: target 0 is built again.  Its signature is unchanged (a target has none) and the engine asks the
+rule: `valid 2 _ false`, so it re-runs (`needs 2 2`, invalid value) with the NEW request list `[node 1, node 2]`; node 1,
+`C0`, source 0 are up to date; node 2 and `C1` have never been built -/
+def histB : List GEvent :=
+  ([.buildStart 2, .queueCreated, .dbIter 2, .lookup 2, .scanning 2, .valid 2 vTarget false, .needs 2 2 none, .create 2,
+    .start 2 [⟨3, 0, 0⟩, ⟨6, 1, 0⟩], .prior 2 vTarget,
+    .lookup 3, .scanning 3, .valid 3 v1 true, .lookup 1, .scanning 1, .valid 1 vC0 true,
+    .lookup 0, .scanning 0, .valid 0 v0 true, .upToDate 0, .upToDate 1, .upToDate 3, .provide 2 0 3 v1 [],
+    .lookup 6, .scanning 6, .needs 6 0 none, .create 6, .start 6 [⟨4, 0, 0⟩],
+    .lookup 4, .scanning 4, .needs 4 0 none, .create 4, .start 4 [⟨0, 0, 0⟩], .provide 4 0 0 v0 [], .inputsAvail 4 [],
+    .complete 4 vC1 false,
+    .finished 4 { value := vC1, sig := godel (sigTerm d1 4), computedAt := 2, builtAt := 2, deps := [⟨0, false, false⟩] },
+    .provide 6 0 4 vC1 [], .inputsAvail 6 [], .complete 6 v2 false,
+    .finished 6 { value := v2, sig := godel (sigTerm d1 6), computedAt := 2, builtAt := 2, deps := [⟨4, false, false⟩] }] :
+    List Event).map .ev
+
+/-- ... the value of node 2 is handed to the target, which completes -/
+def histC : List GEvent :=
+  ([.provide 2 1 6 v2 [], .inputsAvail 2 [], .complete 2 vTarget false,
+    .finished 2 { value := vTarget, sig := godel (sigTerm d1 2), computedAt := 1, builtAt := 2,
+                  deps := [⟨3, false, false⟩, ⟨6, false, false⟩] }] : List Event).map .ev
+
+set_option maxRecDepth 8192 in
+/-- non-vacuity of `C08_outputs_clean_gen` / `C08_inputs_current_gen` WITH AN EDITED TARGET: the hypotheses hold
+(`ProducerStable`, collision-free hash) although `TargetsStable` does not; the history is accepted; the node the target
+did not list before is built and its clean value (`cleanEval` of the new description) is handed to the target
+(`provide 2 1 6 v2`), and the build of the target succeeds -/
+example : (∀ a b, godel a = godel b → a = b) ∧ ProducerStable ds ∧ ¬ TargetsStable ds ∧
+    (∃ s, runG (fun g => client godel (ds g)) ({}, 0) (histA ++ histB) = some (s, 1) ∧ s.pendingDropped = false ∧
+      (step (client godel (ds 1)) s (.provide 2 1 6 v2 [])).isSome = true ∧
+      cleanEval (ds 1) s.env 8 (nodeKey 2) = some v2) ∧
+    (∃ s s', runG (fun g => client godel (ds g)) ({}, 0) (histA ++ histB ++ histC) = some (s, 1) ∧
+      step (client godel (ds 1)) s (.ret vTarget) = some s' ∧ s'.pendingDropped = false ∧
+      (s.cancelled = false ∧ s.cycleSeen = false ∧ s.errSeen = false) ∧ s.target = some (tgtKey 0)) := by
+  have h : ((runG PP ({}, 0) (histA ++ histB)).map (fun sg =>
+      (sg.2 == 1 && !sg.1.pendingDropped && (step (PP 1) sg.1 (.provide 2 1 6 v2 [])).isSome &&
+        cleanEval (ds 1) sg.1.env 8 (nodeKey 2) == some v2))) = some true := by decide
+  have h' : ((runG PP ({}, 0) (histA ++ histB ++ histC)).bind (fun sg =>
+      (step (PP 1) sg.1 (.ret vTarget)).map (fun s' => (sg.2 == 1 && !s'.pendingDropped && !sg.1.cancelled &&
+        !sg.1.cycleSeen && !sg.1.errSeen && sg.1.target == some (tgtKey 0))))) = some true := by decide
+  refine ⟨godel_inj, ds_ProducerStable, ds_not_TargetsStable, ?_, ?_⟩
+  · cases h1 : runG PP ({}, 0) (histA ++ histB) with
+    | none => rw [h1] at h; cases h
+    | some sg =>
+      obtain ⟨s, g⟩ := sg
+      rw [h1] at h
+      simp only [Option.map, Option.some.injEq, Bool.and_eq_true, beq_iff_eq, Bool.not_eq_eq_eq_not,
+        Bool.not_true] at h
+      obtain ⟨⟨⟨a, b⟩, c⟩, d⟩ := h
+      subst a
+      exact ⟨s, h1, b, c, d⟩
+  · cases h1 : runG PP ({}, 0) (histA ++ histB ++ histC) with
+    | none => rw [h1] at h'; cases h'
+    | some sg =>
+      obtain ⟨s, g⟩ := sg
+      rw [h1] at h'
+      simp only [Option.bind] at h'
+      cases h2 : step (PP 1) s (.ret vTarget) with
+      | none => rw [h2] at h'; cases h'
+      | some s' =>
+        rw [h2] at h'
+        simp only [Option.map, Option.some.injEq, Bool.and_eq_true, beq_iff_eq, Bool.not_eq_eq_eq_not,
+          Bool.not_true] at h'
+        obtain ⟨⟨⟨⟨⟨a, b⟩, c⟩, d⟩, e⟩, f⟩ := h'
+        subst a
+        exact ⟨s, s', h1, h2, b, ⟨c, d, e⟩, f⟩
+
+end TargetEditExample
+
 /-! ### `TargetsStable` is needed for `SigCovers` (not for the conclusion) -/
 
 /-- **C08_SigCovers_needs_TargetsStable.**  A target rule has no signature, so two descriptions that list different
 nodes under the same target give the target rule the same signature and different requests: the engine obligation
 `SigCovers` fails for EVERY hash as soon as a target's node list is edited.  (The stored result of a target is never
-reused — `C08_never_valid` — so the conclusion of `C08_outputs_clean_gen` is not refuted by this; it is the shape of
-the engine obligation that asks for the hypothesis.) -/
+reused — `C08_never_valid` — so the conclusion of `C08_outputs_clean_gen` is not refuted by this: the obligation the
+engine theorems really need is `SigCoversValid`, which `C08_client_SigCoversValid` proves without `TargetsStable`.) -/
 theorem C08_SigCovers_needs_TargetsStable (H : List Nat → Nat) :
     ¬ SigCovers (fun g => client H (if g = 0 then { targets := [[0]] } else { targets := [[1]] })) := by
   intro hC
